@@ -9,3 +9,9 @@ TRUSTED = ['A1', 'A2', 'A5', 'A6', 'UF']
 
 def jobs(tier):
     return jobs_for('C03', MODULES, tier)
+
+
+def extra(tier, seed):
+    from fvverif.lean import lemma_status
+    ok, detail = lemma_status(['scaled_solution', 'unique_solution'], rebuild=(tier == 'thorough'))
+    return [('lean lemmas scaled_solution/unique_solution: multiplying (a,b,c) by lambda scales the boundary rows (SMT, per row); scaled rows + non-singular system => same solution', ok, 'lean:' + detail)]
